@@ -3,7 +3,7 @@
 # Applies a seeded breaking change to /repo, runs the quick checks of the named (default: all claimed)
 # properties, prints their VIOLATION lines, and restores /repo.
 . /verif/scripts/env.sh
-patch="$1"; shift
+patch=$(readlink -f "$1"); shift
 props="$*"
 [ -z "$props" ] && props=$(python3 -c "import json;print(' '.join(c['property_id'] for c in json.load(open('/verif/MANIFEST.json'))['checks']))")
 cd /repo || exit 2
